@@ -25,6 +25,15 @@ HEADER = ("From Coq Require Import ZArith QArith Qcanon List Bool Arith.\nFrom C
 ALGS = ["AAuto", "ALU", "AChol", "ACG", "AGMRES", "AOther"]
 ERRCODE = dict(AmbiguousLookupError=1, AssertionError=2, NotFoundLookupError=3)
 TOL = 1e-8
+# (relative, absolute-per-unit-of-scale) tolerances of the in-Coq comparison against the exact rational value, and of the independent float oracle
+TOLS = {False: dict(rel=1e-8, abs=1e-9, ora=1e-6, kappa=1e3), True: dict(rel=2e-4, abs=2e-4, ora=1e-3, kappa=30.0)}
+
+
+def qsq(x):
+    """Coq literal for the square of a tolerance (a rational)"""
+    from fractions import Fraction
+    f = Fraction(x).limit_denominator(10 ** 30) ** 2
+    return f"Q2Qc ({f.numerator} # {f.denominator})" if f else "Q2Qc 0"
 
 
 def mkalg(name, iters=50):
@@ -134,6 +143,32 @@ def findings():
     probe("inv_gmres_zero_rhs_nan", "inv(A, GMRES()) @ B returns NaN in every column of B that is zero (the residual is normalised by its norm; the solution of A x = 0 is 0)",
           gmres_zero_rhs, "inv(Dense(diag(1,2,3)), GMRES(max_iters=3)) @ [[1,0],[1,0],[1,0]]")
 
+    def gmres_complex_rhs():
+        T3 = np.array([[2., 1., 0.], [1., 3., 1.], [0., 1., 4.]])
+        b = np.array([1 + 2j, 2 - 1j, 3j])
+        x = np.asarray(cola.linalg.solve(ops.Dense(T3), b, cola.linalg.GMRES(max_iters=3)))
+        res = float(np.linalg.norm(T3 @ x - b) / np.linalg.norm(b))
+        return not res <= 1e-6, f"relative residual {res:.2e} (dtype {x.dtype})"
+    probe("inv_gmres_complex_rhs_real_operator", "solve(A, b, GMRES()) with a real operator and a complex right-hand side silently discards the imaginary part of b "
+          "(the Arnoldi basis is allocated in the operator's dtype; numpy emits a ComplexWarning) and returns a wrong complex solution; CG handles the same input correctly",
+          gmres_complex_rhs, "solve(Dense([[2,1,0],[1,3,1],[0,1,4]]), [1+2j, 2-1j, 3j], GMRES(max_iters=3))")
+
+    def x0_vector():
+        T3 = np.array([[2., 1., 0.], [1., 3., 1.], [0., 1., 4.]])
+        b = np.array([1., 2., 3.])
+        out = []
+        for name, alg in (("GMRES", cola.linalg.GMRES(x0=np.ones(3), max_iters=3)), ("CG", cola.linalg.CG(x0=np.ones(3)))):
+            try:
+                x = np.asarray(cola.linalg.solve(cola.PSD(ops.Dense(T3)), b, alg))
+                if not (x.shape == (3,) and np.allclose(T3 @ x, b, atol=1e-4)):
+                    out.append(name + ": wrong")
+            except Exception as e:
+                out.append(f"{name}: {type(e).__name__}")
+        return bool(out), out
+    probe("inv_iterative_x0_vector", "solve(A, b, CG(x0=v)) / inv(A, GMRES(x0=v)) @ b with a vector b and the documented vector-shaped initial guess raise "
+          "(AssertionError / ValueError): the lazy inverse always hands an (n,1) right-hand side to the solver, which then broadcasts it against the (n,) guess",
+          x0_vector, "solve(PSD(Dense([[2,1,0],[1,3,1],[0,1,4]])), [1,2,3], CG(x0=ones(3)))  and the same with GMRES(x0=ones(3), max_iters=3)")
+
     def unitary_dead():
         Q = np.array([[0., 1.], [1., 0.]])
         ts = [L.type_str(inv(cola.Unitary(ops.Dense(Q)), mkalg(n))) for n in ("AAuto", "ALU", "AGMRES")]
@@ -158,10 +193,14 @@ def gen_trees(ctx, n_trees, present):
     while len(out) < n_trees and tries < 40 * n_trees:
         tries += 1
         cplx = r.random() < 0.4
+        single = r.random() < 0.25
+        g.single, g.kappa = single, TOLS[single]["kappa"]
         n = r.choice([1, 2, 2, 3, 3, 4, 4, 5, 6])
-        fam = r.choice(["inv", "inv", "inv", "psd", "psd", "psd_undecl", "uni"])
+        fam = r.choice(["inv", "inv", "inv", "psd", "psd", "psd_undecl", "uni", "graded"])
         dep = r.randint(1, dmax) if r.random() < 0.8 else 0
-        if fam == "inv":
+        if fam == "graded":   # data over many orders of magnitude (entry-wise exact kinds only)
+            t = g.graded_tree(n, min(dep, 2), cplx)
+        elif fam == "inv":
             t = g.tree(n, dep, cplx)
         elif fam == "psd":
             t = g.psd_tree(n, max(dep - 1, 0), cplx, decl=True)
@@ -174,11 +213,14 @@ def gen_trees(ctx, n_trees, present):
         if "scalarmul_device_cpu" in present and L.has_scal_below_prod(t):
             continue
         D = T.dense(t)
-        if D.shape[0] != D.shape[1] or not np.all(np.isfinite(D)) or np.linalg.matrix_rank(D) < D.shape[0] or np.linalg.cond(D) > g.kappa:
+        if fam == "graded":
+            if L.gperm_inv(D) is None:
+                continue
+        elif D.shape[0] != D.shape[1] or not np.all(np.isfinite(D)) or np.linalg.matrix_rank(D) < D.shape[0] or np.linalg.cond(D) > g.kappa:
             continue
         if "concat_assert_wrong_axis" in present:
             pass  # GenInv.tree builds equal-height parts only
-        out.append(dict(tree=t, fam=fam, cplx=cplx, present=present))
+        out.append(dict(tree=t, fam=fam, cplx=cplx, single=single, present=present))
     return out
 
 
@@ -225,16 +267,38 @@ def run_impl(case, rnd):
                 Bg[rnd.randrange(n)][j] = [1, 0]
             if all(v == [0, 0] for v in BLg[j]):
                 BLg[j][rnd.randrange(n)] = [1, 0]
-    dt = L.C128 if cplx else L.F64
+    single = case.get("single", False)
+    dt = (L.C64 if cplx else L.F32) if single else (L.C128 if cplx else L.F64)
+    rhs_cplx = (not cplx) and rnd.random() < 0.15    # a complex right-hand side for a real operator
+    if rhs_cplx:
+        Bg = [[[v[0], rnd.randint(-2, 2)] for v in row] for row in Bg]
+        BLg = [[[v[0], rnd.randint(-2, 2)] for v in row] for row in BLg]
+        dt = L.C64 if single else L.C128
     B = T.arr(Bg, dt)
     BL = T.arr(BLg, dt)
     obs = {}
+    # how Auto is passed: an Auto() object, the default argument (alg omitted), or Auto(**kwargs) (the kwargs only matter on the large branch)
+    auto_variant = rnd.choice(["object", "omitted", "kwargs"])
+
+    def call_inv(alg):
+        if alg == "AAuto" and auto_variant == "omitted":
+            return inv(A)
+        if alg == "AAuto" and auto_variant == "kwargs":
+            return inv(A, cola.linalg.Auto(tol=1e-3, max_iters=7, pbar=False))
+        return inv(A, mkalg(alg, it))
+
+    def call_solve(alg, rhs):
+        if alg == "AAuto" and auto_variant == "omitted":
+            return solve(A, rhs)
+        if alg == "AAuto" and auto_variant == "kwargs":
+            return solve(A, rhs, cola.linalg.Auto(tol=1e-3, max_iters=7, pbar=False))
+        return solve(A, rhs, mkalg(alg, it))
     it = n if {"inv_gmres_padding_singular", "inv_gmres_padding_singular_complex"} & set(case.get("present", ())) else 50
     for alg in ALGS:
         o = dict(alg=alg, perr={})
         with L.Recorder() as rec:
             try:
-                X = inv(A, mkalg(alg, it))
+                X = call_inv(alg)
                 o["type"] = L.type_str(X)
                 o["rty"] = L.rty(X)
                 o["ok"] = True
@@ -244,7 +308,7 @@ def run_impl(case, rnd):
                 o["msg"] = str(e)[:160]
             if o["ok"]:
                 for name, fn in (("dense", lambda: X.to_dense()), ("res", lambda: X @ B), ("res1", lambda: X @ B[:, 0]),
-                                 ("solve", lambda: solve(A, B, mkalg(alg, it))), ("solve1", lambda: solve(A, B[:, 0], mkalg(alg, it))),
+                                 ("solve", lambda: call_solve(alg, B)), ("solve1", lambda: call_solve(alg, B[:, 0])),
                                  ("resl", lambda: BL @ X), ("resl1", lambda: BL[0] @ X)):
                     try:
                         with np.errstate(all="ignore"):
@@ -258,7 +322,8 @@ def run_impl(case, rnd):
         # LAPACK calls of the first inv(...) only are needed by the model; duplicates are harmless (table lookup by input matrix)
         o["lu"], o["chol"] = rec.lu, rec.chol
         obs[alg] = o
-    return t, dict(k=k, B=Bg, BL=BLg, Bnp=B, BLnp=BL, dense=Dn), obs
+    return t, dict(k=k, B=Bg, BL=BLg, Bnp=B, BLnp=BL, dense=Dn, single=single, graded=(case.get("fam") == "graded"), auto_variant=auto_variant,
+                   rhs_cplx=rhs_cplx, op_dtype=np.dtype(A.dtype)), obs
 
 
 def coq_case(t, io, o, flag_amb, flag_fwd=True):
@@ -269,9 +334,11 @@ def coq_case(t, io, o, flag_amb, flag_fwd=True):
     # checked to lie within 1e-10 of them); Cholesky factors only when they are exact (perfect squares)
     num = True
     lus, chs = [], []
+    tl = TOLS[bool(io.get("single"))]
+    gate = 1e-10 if not io.get("single") else 1e-4
     for a, (p, Lm, U) in o["lu"]:
         ex = L.lu_rational(a, p) if a.shape[0] == a.shape[1] and a.shape[0] <= 16 else None
-        if ex is None or not (np.abs(L.cq_to_np(ex[0]) - Lm).max() <= 1e-10 * max(1, np.abs(Lm).max()) and np.abs(L.cq_to_np(ex[1]) - U).max() <= 1e-10 * max(1, np.abs(U).max())):
+        if ex is None or not (np.abs(L.cq_to_np(ex[0]) - Lm).max() <= gate * max(1, np.abs(Lm).max()) and np.abs(L.cq_to_np(ex[1]) - U).max() <= gate * max(1, np.abs(U).max())):
             num = False
             continue
         lus.append(f"({L.qmat(a)}, ({L.nlist(p)}, {L.qmat(ex[0])}, {L.qmat(ex[1])}))")
@@ -288,7 +355,7 @@ def coq_case(t, io, o, flag_amb, flag_fwd=True):
             f"cnum := {'true' if num else 'false'}; cfwd := {'true' if flag_fwd else 'false'}; cflag := {'true' if flag_amb else 'false'}; cerr := {0 if o.get('ok') else ERRCODE.get(o.get('err'), 9)}; crty := {o['rty'] if o.get('ok') else 'TOp 0'}; "
             f"cB := {L.qmat_g(io['B'])}; cBL := {L.qmat_g(io['BL'])}; "
             f"cdense := {L.qmat(o['dense']) if direct else empty}; cres := {L.qmat(o['res']) if direct else empty}; cresl := {L.qmat(o['resl']) if direct else empty}; "
-            f"ctol2 := Q2Qc (1 # 10000000000000000) |}}")
+            f"ctol2 := {qsq(tl['rel'])}; cabs2 := {'Q2Qc 0' if io.get('graded') else qsq(tl['abs'])} |}}")
 
 
 def oracle(t, io, o, present):
@@ -305,10 +372,21 @@ def oracle(t, io, o, present):
         if alg in ("AChol", "ACG") and o["err"] == "AssertionError" and "PSD" in o.get("msg", "") and "inv_psd_alg_forwarded_to_factors" in present and t["k"] in ("Prod", "Kron", "BDiag"):
             return ["raised " + o["err"]], "inv_psd_alg_forwarded_to_factors"
         return ["raised " + o["err"] + ": " + o.get("msg", "")], None
-    ref = np.linalg.inv(D)
+    single = bool(io.get("single"))
+    tl = TOLS[single]
     B, BL = io["Bnp"].astype(complex), io["BLnp"].astype(complex)
     iterative = "TIter" in o["rty"]
     bad = []
+    if io.get("graded") and not iterative:
+        # widely graded data: exact reference (the matrix is a generalised permutation matrix), entry-wise relative comparison
+        ref = L.gperm_inv(D)
+        rel = 1e-4 if single else 1e-12
+        for name, X, want in (("inv(A).to_dense()", o["dense"], ref), ("inv@b", o["res"], ref @ B), ("solve", o["solve"], ref @ B), ("b@inv", o["resl"], BL @ ref),
+                              ("inv@b 1-D", o["res1"], (ref @ B)[:, 0]), ("solve 1-D", o["solve1"], (ref @ B)[:, 0]), ("b@inv 1-D", o["resl1"], (BL @ ref)[0])):
+            if X.shape != want.shape or not np.all(np.abs(X - want) <= rel * np.abs(want)):
+                bad.append(name + " (entry-wise)")
+        return bad, None
+    ref = np.linalg.inv(D)
     sc = max(1.0, np.abs(ref).max())
     if iterative:
         # the requested tolerance: relative residual (CG/GMRES default tol 1e-6), margin 100x
@@ -328,13 +406,15 @@ def oracle(t, io, o, present):
         for a, b_ in (("res1", "res"), ("solve1", "solve")):
             if a in o and b_ in o and not np.abs(o[a] - o[b_][:, 0]).max() <= 1e-3 * max(1.0, np.abs(o[b_]).max()):
                 bad.append(a)
+        if bad and "TIterGMRES" in o["rty"] and io.get("rhs_cplx") and "inv_gmres_complex_rhs_real_operator" in present:
+            return bad, "inv_gmres_complex_rhs_real_operator"
         if bad and "TIterGMRES" in o["rty"]:
             nan = any("nan" in b_ for b_ in bad)
             for fl in (("inv_gmres_zero_rhs_nan",) if nan else ()) + ("inv_gmres_padding_singular", "inv_gmres_padding_singular_complex", "inv_gmres_breakdown_continues"):
                 if fl in present:
                     return bad, fl
         return bad, None
-    tol = TOL * 100   # the Coq comparison uses 1e-8 against the exact value; this independent float oracle is itself rounded
+    tol = tl["ora"]   # the Coq comparison is tighter (against the exact value); this independent float oracle is itself rounded
     if o["dense"].shape != ref.shape or not np.abs(o["dense"] - ref).max() <= tol * sc:
         bad.append("inv(A).to_dense()")
     for name, X, want in (("inv@b", o["res"], ref @ B), ("solve", o["solve"], ref @ B), ("b@inv", o["resl"], BL @ ref)):
@@ -342,11 +422,117 @@ def oracle(t, io, o, present):
             bad.append(name)
     # 1-D right-hand sides and solve == inv @ b
     for name, v, M in (("inv@b 1-D", o["res1"], o["res"][:, 0]), ("solve 1-D", o["solve1"], o["solve"][:, 0]), ("b@inv 1-D", o["resl1"], o["resl"][0])):
-        if v.shape != M.shape or not np.abs(v - M).max() <= 1e-10 * max(1.0, np.abs(M).max()):
+        if v.shape != M.shape or not np.abs(v - M).max() <= (1e-4 if single else 1e-10) * max(1.0, np.abs(M).max()):
             bad.append(name)
     if not np.array_equal(o["res"], o["solve"]):
         bad.append("solve(A,b) differs from inv(A)@b")
+    want_dt = np.result_type(io["Bnp"].dtype)
+    if o["dense"].dtype != io["op_dtype"]:
+        bad.append(f"dtype of dense: {o['dense'].dtype} instead of {io['op_dtype']}")
+    for name in ("res", "solve", "resl"):
+        if o[name].dtype != want_dt:
+            bad.append(f"dtype of {name}: {o[name].dtype} instead of {want_dt}")
     return bad, None
+
+
+def kwargs_stream(ctx, n_cases, present):
+    """the optional arguments of the iterative algorithm objects through inv / solve: initial guess x0 (none, zero, rough, accurate, exact; real and
+    complex; vector and several columns), tolerance, iteration cap, preconditioner.  Checked by the residual the property promises (independent numpy oracle);
+    the Coq model has nothing to add here (it returns the lazy operator whatever the keyword arguments are)."""
+    import cola
+    from cola import ops
+    from cola.linalg import inv, solve, CG, GMRES
+    r = ctx.rng
+    g = L.GenInv(r, present)
+    pad = bool({"inv_gmres_padding_singular", "inv_gmres_padding_singular_complex"} & set(present))
+    rows, bad_rows = [], []
+    hist = {}
+    for ci in range(n_cases):
+        cplx = r.random() < 0.4
+        n = r.choice([2, 3, 4, 5, 6, 8])
+        algn = r.choice(["GMRES", "GMRES", "CG"])
+        dt = L.C128 if cplx else L.F64
+        if algn == "CG":
+            Lo = g.lower(n, cplx, posdiag=True)
+            M = Lo @ Lo.conj().T
+        else:
+            M = g.unimod(n, cplx) @ np.diag([complex(r.choice([1, 2, -2, 3])) for _ in range(n)])
+        if np.linalg.cond(M) > 1e3:
+            continue
+        t = dict(k="Dense", dt=dt, a=g.gmat(M))
+        wrap = r.choice(["plain", "plain", "sum", "transp"])
+        if wrap == "sum":
+            t = dict(k="Sum", ms=[t, dict(k="Dense", dt=dt, a=[[[0, 0]] * n for _ in range(n)])])
+        elif wrap == "transp":
+            t = dict(k="Transp", a=dict(k="Dense", dt=dt, a=g.gmat(M.T)))
+        A = L.build(t)
+        if algn == "CG":
+            A = cola.PSD(A)
+        D = T.dense(t)
+        k = r.choice([0, 1, 2, 3])    # 0: 1-D right-hand side
+        shape = (n,) if k == 0 else (n, k)
+        b = np.array([r.randint(-3, 3) + (1j * r.randint(-2, 2) if cplx else 0) for _ in range(n * max(k, 1))]).reshape(shape)
+        for j in range(max(k, 1)):   # no zero column
+            col = b if k == 0 else b[:, j]
+            if not np.any(col):
+                col[r.randrange(n)] = 1
+        b = b.astype(T.npdt(dt))
+        xs = np.linalg.solve(D, b.astype(complex))
+        x0kind = r.choice(["none", "zero", "rough", "rough", "near", "exact", "scaled"])
+        if k == 0 and "inv_iterative_x0_vector" in present:
+            x0kind = "none"   # region of the recorded defect: a vector-shaped guess with a vector right-hand side
+        if x0kind == "none":
+            x0 = None
+        elif x0kind == "zero":
+            x0 = np.zeros(shape)
+        elif x0kind == "rough":
+            x0 = np.array([r.randint(-3, 3) + (1j * r.randint(-2, 2) if cplx else 0) for _ in range(n * max(k, 1))]).reshape(shape)
+        elif x0kind == "near":
+            x0 = xs * (1 + 1e-3 * np.array([r.uniform(-1, 1) for _ in range(xs.size)]).reshape(shape))
+        elif x0kind == "exact":
+            x0 = xs.copy()
+        else:
+            x0 = 100.0 * xs
+        if x0 is not None:
+            x0 = (x0 if cplx else np.real(x0)).astype(T.npdt(dt))
+        tol = r.choice([1e-6, 1e-6, 1e-9, 1e-3])
+        mi = n if pad else r.choice([n, n + 2, 50, 1000 if n <= 3 and k <= 1 and algn == "CG" else 50])
+        pk = r.choice(["none", "none", "identity", "jacobi"])
+        P = None
+        if pk == "identity":
+            P = ops.Identity((n, n), T.npdt(dt))
+        elif pk == "jacobi" and algn == "CG":
+            P = cola.PSD(ops.Diagonal((1.0 / np.real(np.diag(D))).astype(T.npdt(dt))))
+        kw = dict(tol=tol, max_iters=mi, pbar=False)
+        if x0 is not None:
+            kw["x0"] = x0
+        if P is not None:
+            kw["P"] = P
+        entry = r.choice(["inv@b", "solve"])
+        row = dict(alg=algn, n=n, k=k, cplx=cplx, wrap=wrap, x0=x0kind, tol=tol, max_iters=mi, P=pk, entry=entry)
+        hist[(algn, x0kind)] = hist.get((algn, x0kind), 0) + 1
+        bad = []
+        try:
+            with np.errstate(all="ignore"):
+                alg = (CG if algn == "CG" else GMRES)(**kw)
+                x = np.asarray(inv(A, alg) @ b if entry == "inv@b" else solve(A, b, alg))
+            r0 = np.linalg.norm(b - D @ (x0 if x0 is not None else np.zeros(shape)))
+            res = float(np.linalg.norm(D @ x - b) / np.linalg.norm(b))
+            bound = max(20 * tol * (1 + r0 / np.linalg.norm(b)), 1e-8)
+            row.update(residual=res, bound=bound)
+            if x.shape != shape:
+                bad.append(f"shape {x.shape}")
+            elif not res <= bound:
+                bad.append(f"relative residual {res:.2e} > {bound:.1e}")
+            if x.dtype != np.result_type(T.npdt(dt)):
+                bad.append(f"dtype {x.dtype}")
+        except Exception as e:
+            bad.append(f"raised {type(e).__name__}: {str(e)[:120]}")
+        rows.append(row)
+        if bad:
+            bad_rows.append(dict(oracle_fail=True, case=dict(tree=t, b=[[complex(v).real, complex(v).imag] for v in np.ravel(b)],
+                                                             x0_values=None if x0 is None else [[complex(v).real, complex(v).imag] for v in np.ravel(x0)], **row), failed_clauses=bad))
+    return rows, bad_rows, {f"{a}/{x}": c for (a, x), c in sorted(hist.items())}
 
 
 def large_cases(ctx, present):
@@ -364,14 +550,17 @@ def large_cases(ctx, present):
             if psd:
                 A = cola.PSD(A)
             b = np.array([float(rnd.randint(-3, 3)) for _ in range(n)])
-            row = dict(n=n, psd=psd)
+            x0 = np.array([float(rnd.randint(-3, 3)) for _ in range(n)])   # a rough non-zero initial guess, forwarded by Auto to CG / GMRES
+            if "inv_iterative_x0_vector" in present:   # recorded defect: vector guess with vector right-hand side -> use one column
+                b, x0 = b[:, None], x0[:, None]
+            row = dict(n=n, psd=psd, rhs_shape=list(b.shape))
             try:
-                X = inv(A, Auto(max_iters=40, tol=1e-9)) if n == 1001 else inv(A, Auto())
+                X = inv(A, Auto(max_iters=40, tol=1e-9, x0=x0)) if n == 1001 else inv(A, Auto(x0=x0))
                 row["type"] = L.type_str(X)
                 x = X @ b
-                row["residual"] = float(np.linalg.norm(d * x - b) / np.linalg.norm(b))
+                row["residual"] = float(np.linalg.norm((d * x.T).T - b) / np.linalg.norm(b))
                 if n == 1001:
-                    row["kwargs_forwarded"] = (X.alg.max_iters == 40 and X.alg.tol == 1e-9)
+                    row["kwargs_forwarded"] = (X.alg.max_iters == 40 and X.alg.tol == 1e-9 and X.alg.x0 is x0)
                 row["ok"] = True
             except Exception as e:
                 row.update(ok=False, err=type(e).__name__ + ": " + str(e)[:120])
@@ -435,6 +624,9 @@ def run(ctx):
             meta.append((ci, alg, bad if not flag else [], o))
     # large-operator branch of Auto
     big_rows, big_coq = large_cases(ctx, present)
+    # optional arguments of the iterative algorithm objects
+    kw_rows, kw_bad, kw_hist = kwargs_stream(ctx, ctx.budget(150, 1200), present)
+    mism += kw_bad
     # ---- model vs implementation inside Coq
     shard = ctx.budget(60, 120)
     jobs = []
@@ -482,7 +674,7 @@ def run(ctx):
             for k in set(T.kinds_of(c["reflected"])):
                 kh[k] = kh.get(k, 0) + 1
     return dict(
-        evaluations=len(terms) + len(big_rows), distinct_nontrivial=distinct,
+        evaluations=len(terms) + len(big_rows) + len(kw_rows), distinct_nontrivial=distinct,
         rule="random invertible operator trees (unimodular/triangular/diagonal/permutation/tridiagonal/sparse/Householder leaves, Product incl. non-square factors, Kronecker, "
              "BlockDiag with multiplicities, Sum, Transpose/Adjoint, Sliced, Concatenated; PSD-declared, PSD-undeclared and Unitary-declared families; real and complex; "
              "constructors and public combinators) x 6 algorithm classes; non-trivial = depth>=2, distinct by reflected tree hash; plus 4 matrix-free operators of 1000 and 1001 rows",
@@ -491,7 +683,9 @@ def run(ctx):
         extra=dict(trees=len(cases), kind_histogram=kh, algorithm_histogram=alg_hist, outcome_histogram=err_hist, result_head_types=type_hist,
                    families={f: sum(1 for c in cases if c["fam"] == f) for f in ("inv", "psd", "psd_undecl", "uni")},
                    complex_trees=sum(1 for c in cases if c["cplx"]),
-                   skipped_false_annotations=wrong_ann,
+                   skipped_false_annotations=wrong_ann, iterative_kwargs_cases=len(kw_rows), iterative_kwargs_histogram=kw_hist,
+                   iterative_kwargs_max_residual_over_bound=max((r_['residual'] / r_['bound'] for r_ in kw_rows if 'residual' in r_), default=0.0),
+                   precision_histogram={('single' if c.get('single') else 'double'): sum(1 for c2 in cases if bool(c2.get('single')) == bool(c.get('single'))) for c in cases},
                    values_compared_in_coq=sum(1 for (_, _, _, o) in meta if o.get("num_in_coq")),
                    structure_only_in_coq=sum(1 for (_, _, _, o) in meta if o.get("ok") and not o.get("num_in_coq")),
                    lapack_lu_calls=n_lu, lapack_lu_exact=n_exact_lu, lapack_cholesky_calls=n_ch, lapack_cholesky_exact=n_exact_ch,
